@@ -169,6 +169,7 @@ func (ev *Ev) builtin(name string, x *ast.CallExpr) Value {
 		z := u.zero(t)
 		if _, ok := structOf(t); ok {
 			walkValue(z, "", func(path string, l Value) { u.writeField(ev.st, t, path, l.S, ref, l.T) })
+			u.zeroWaitGroups(ev.st, t, ref)
 			u.checkTypeInvAlloc(ev, t, ref)
 		} else {
 			ev.assignLV(&LValue{K: lvDeref, Ref: ref, Typ: t}, z)
@@ -1267,6 +1268,9 @@ func (u *Unit) wgOp(ev *Ev, wgExpr ast.Expr, op string, x *ast.CallExpr) {
 	as := arraySort(SRef, SInt)
 	u.famSort("G:wg", as)
 	cur := u.fam(ev.st, "G:wg", as)
+	if ord, ok := u.callOrd[x]; ok {
+		u.callSiteClauses(ev, ord, nil, nil, nil)
+	}
 	switch op {
 	case "Add":
 		d := ev.expr(x.Args[0])
@@ -1440,4 +1444,21 @@ func (u *Unit) setOf(v Value) string {
 		}
 	}
 	return u.fresh("set", arraySort(SRef, SBool))
+}
+
+// zeroWaitGroups: a freshly allocated struct's sync.WaitGroup fields count 0.
+func (u *Unit) zeroWaitGroups(st *State, t types.Type, ref string) {
+	stt, ok := structOf(t)
+	if !ok {
+		return
+	}
+	for i := 0; i < stt.NumFields(); i++ {
+		f := stt.Field(i)
+		if n, ok := f.Type().(*types.Named); ok && n.Obj().Pkg() != nil && n.Obj().Pkg().Path() == "sync" && n.Obj().Name() == "WaitGroup" {
+			as := arraySort(SRef, SInt)
+			u.famSort("G:wg", as)
+			fa := u.declareFun(quote("fieldaddr:"+f.Name()), []Sort{SRef}, SRef)
+			u.setFam(st, "G:wg", as, app("store", u.fam(st, "G:wg", as), app(fa, ref), "0"))
+		}
+	}
 }
